@@ -4,6 +4,6 @@ CONSTANTS
   MaxClock = 2
   Timeouts = {0, 1}
 SPECIFICATION FairSpec
-INVARIANTS TypeOK PrefixInv AllDeliveredAtEof TimeoutNotEarly EofOnlyAfterAll TryNeverBlocks
-PROPERTIES ReadCompletes AcceptCompletes WriteCompletes
+INVARIANTS TypeOK PrefixInv AllDeliveredAtEof TimeoutNotEarly EofOnlyAfterAll TryNeverBlocks CtorUniform
+PROPERTIES ReadCompletes AcceptCompletes WriteCompletes TimedCallsReturn
 CHECK_DEADLOCK FALSE
